@@ -12,8 +12,8 @@ Follows, statement by statement,
   * gapic/utils/case.py        : to_snake_case (the four pinned regexes + `.lower()`)
   * gapic/utils/code.py        : partition, make_private
   * templates scripts/fixup_%name_%version_keywords.py.j2 : METHOD_TO_PARAMS
-                                 (`all_methods|sort(attribute='name')|unique(attribute='name')`; both Jinja
-                                 filters are CASE-INSENSITIVE by default: the key is `name.lower()`)
+                                 (`all_methods|sort(attribute='name')|unique(case_sensitive=True, attribute='name')`;
+                                 Jinja's `sort` is case-insensitive by default: its key is `name.lower()`)
   * templates services/%service/client.py.j2, async_client.py.j2, __init__.py.j2 : which classes and
                                  methods are emitted (`emitted*` below).
 Strings are `List Char`; identifiers are ASCII (protobuf grammar), so `.lower()` is ASCII lower-casing.
@@ -253,9 +253,11 @@ def legacyNames (m : MethodS) : List Str :=
 /-- the template's `all_methods` list -/
 def allMethods (api : Api) : List MethodS := api.services.flatMap (·.methods)
 
-/-- `all_methods|sort(attribute='name')|unique(attribute='name')` — Jinja lower-cases both keys -/
+/-- `all_methods|sort(attribute='name')|unique(case_sensitive=True, attribute='name')` — Jinja's `sort`
+lower-cases its key (default `case_sensitive=False`); since the `fix:` commit for C15 `unique` compares the
+names as they are (before it, `unique` lower-cased too and dropped `Getbook` next to `GetBook`). -/
 def fixupMethods (api : Api) : List MethodS :=
-  uniqueBy (fun m => lower m.name) (sortBy (fun m => lower m.name) (allMethods api)) []
+  uniqueBy (fun m => m.name) (sortBy (fun m => lower m.name) (allMethods api)) []
 
 /-- METHOD_TO_PARAMS as written (a dict literal: for equal keys the LAST value wins) -/
 def fixupTable (api : Api) : List (Str × List Str) :=
